@@ -21,7 +21,7 @@ class Boom(Exception):
     pass
 
 
-def build(op, n, fail, policy, via_config, errorvalue):
+def build(op, n, fail, policy, via_config, errorvalue, lazy=False):
     """Returns (view, describe). Rows are (r, 10r+1, 10r+2); fields a, b are converted."""
     import petl as etl
     import petl.config
@@ -51,7 +51,11 @@ def build(op, n, fail, policy, via_config, errorvalue):
                 kw['errorvalue'] = errorvalue
             v = etl.fieldmap(t, OrderedDict([('r', 'r'), ('a', ('a', conv(1))), ('b', ('b', conv(2)))]), **kw)
         elif op == 'rowmap':
-            v = etl.rowmap(t, lambda row: [row[0], conv(1)(row[1]), conv(2)(row[2])], header=['r', 'a', 'b'], **kw)
+            if lazy:
+                # the mapper returns a LAZY row: the conversion (and its failure) happens while petl builds the tuple
+                v = etl.rowmap(t, lambda row: (f(x) for f, x in zip((lambda x: x, conv(1), conv(2)), row)), header=['r', 'a', 'b'], **kw)
+            else:
+                v = etl.rowmap(t, lambda row: [row[0], conv(1)(row[1]), conv(2)(row[2])], header=['r', 'a', 'b'], **kw)
         else:
             def gen(row):
                 yield [row[0], 1, conv(1)(row[1])]
@@ -112,10 +116,10 @@ def iterate(op, v, n, errorvalue):
     return items, raised, after
 
 
-def check_case(chk, case, via_config, errorvalue):
+def check_case(chk, case, via_config, errorvalue, lazy=False):
     op = case['op']
     try:
-        v = build(op, case['n'], case['fail'], case['policy'], via_config, errorvalue)
+        v = build(op, case['n'], case['fail'], case['policy'], via_config, errorvalue, lazy)
         items, raised, after = iterate(op, v, case['n'], errorvalue)
         items2, raised2, _ = iterate(op, v, case['n'], errorvalue)        # second pass: same outcome
     except Exception as e:
@@ -189,7 +193,7 @@ def validate_traces(chk, traces, seed):
         r2, v2 = common.validate('FailOnErrorTrace', bad, name='FailOnErrorTraceBad')
         ok = v2[1][0] != 0
         chk.binding_demo = {'corrupted': 'a failing cell logged as converted', 'verdict': list(v2[1]), 'rejected_as_expected': ok}
-        if not ok:
+        if not ok and not chk.violations:
             raise tlc.MachineryError('binding demo failed: corrupted failonerror trace accepted')
 
 
@@ -211,6 +215,10 @@ def run(tier, seed):
                 check_case(chk, case, via_config, ev)
                 chk.count(('case', ci, via_config, ev))
                 chk.replayed += 1
+                if case['op'] == 'rowmap':
+                    check_case(chk, case, via_config, ev, lazy=True)
+                    chk.count(('case-lazy', ci, via_config))
+                    chk.replayed += 1
     chk.sample({'kind': 'failonerror-behaviour', 'case': cases[len(cases) // 2]})
     traces = record_traces(3000 if full else 400, seed)
     validate_traces(chk, traces, seed)
